@@ -9,7 +9,7 @@
 """
 import re
 
-from .. import expsib, alias
+from .. import expsib, alias, outfull
 from ..facts import AnalysisBroken
 from . import c02
 
@@ -41,7 +41,8 @@ def analyse(ctx, prog, chk):
     nb = expsib.rule_loop_bits(ctx, prog, chk, fam)
     na, used = alias.rule(ctx, prog, chk, lambda fn: fn.rfile.startswith(("src/fpx/", "src/low/easy/relic_fpx")), ALIAS_OK)
     nc = c02.rule_const_in(ctx, prog, chk, prefix=("src/fpx/", "src/low/easy/relic_fpx"))
-    return {"exp": ne, "siblings": len(fam), "alias": na, "const": nc, "bits": nb}
+    nf = outfull.rule(ctx, prog, chk, lambda fn: fn.rfile.startswith(("src/fpx/", "src/low/easy/relic_fpx")))
+    return {"exp": ne, "siblings": len(fam), "alias": na, "const": nc, "bits": nb, "full": nf}
 
 
 def selfcheck(ctx, prog, chk):
@@ -54,6 +55,7 @@ def run(ctx, chk):
     chk.floor("ALIAS-RW", "output/input pairs of the same tower type", c["alias"], 300)
     chk.floor("LOOP-BITS", "bit scans of exponents", c["bits"], 10)
     chk.floor("CONST-IN", "const pointer parameters of the module", c["const"], 400)
+    chk.floor("OUT-FULL", "tower outputs written component by component", c["full"], 200)
     analyse(ctx, ctx.program("P381"), chk)
     if chk.tier == "thorough":
         # the field sizes whose pairing curves select the cubic, quartic and octic twists
